@@ -202,6 +202,13 @@ def describe_arg(t):
         from paths import ptr_key
         b, o = ptr_key(t)
         return ("ptr", b, o)
+    if isinstance(t, tuple) and t[0] == "idx":
+        # base + constant, however the sum was associated (`source + 1 + extra` with `extra` a constant of the call)
+        from paths import linear
+        lin = linear(t)
+        atoms = [a for a in lin if a != 1]
+        if len(atoms) == 1 and lin[atoms[0]] == 1 and isinstance(atoms[0], tuple) and atoms[0][0] == "arg":
+            return ("ptr", atoms[0], lin.get(1, 0))
     return ("other", t)
 
 
@@ -257,11 +264,13 @@ def dispatch(prog, eff):
                 if ok:
                     claimed = ("sum", claimed, amount) if not (isinstance(claimed, int) and amount[0] == "c") else claimed + amount[1]
                 open_claim = None
-            elif e.kind == "load" and open_claim is None and e.depth == 0:
+            elif e.kind == "load" and open_claim is None:
                 b, off = P.ptr_key(e.args[0])
                 if b == SRC:
                     reads.append(dict(off=off, width=1, claimed=claimed, ev=e, via="load"))
-            elif e.kind == "call" and e.ckind == "lib" and e.depth == 0:
+            elif e.kind == "call" and e.ckind == "lib" and open_claim is None:
+                # (also inside a unit-internal helper that has been inlined: a loader chosen by a width switch in a helper is still
+                # the decoder reading the buffer)
                 for k, a in enumerate(e.args):
                     b, off = P.ptr_key(a) if isinstance(a, tuple) else (a, 0)
                     if b == SRC:
